@@ -4501,11 +4501,11 @@ impl Machine {
                     }
                     &Instruction::CallResetContinuationMarker => {
                         self.reset_continuation_marker();
-                        self.machine_st.p += 1;
+                        step_or_fail!(self.machine_st, self.machine_st.p += 1);
                     }
                     &Instruction::ExecuteResetContinuationMarker => {
                         self.reset_continuation_marker();
-                        self.machine_st.p = self.machine_st.cp;
+                        step_or_fail!(self.machine_st, self.machine_st.p = self.machine_st.cp);
                     }
                     &Instruction::CallRestoreCutPolicy => {
                         self.restore_cut_policy();
@@ -4559,11 +4559,11 @@ impl Machine {
                     }
                     &Instruction::CallStoreGlobalVar => {
                         self.store_global_var();
-                        self.machine_st.p += 1;
+                        step_or_fail!(self.machine_st, self.machine_st.p += 1);
                     }
                     &Instruction::ExecuteStoreGlobalVar => {
                         self.store_global_var();
-                        self.machine_st.p = self.machine_st.cp;
+                        step_or_fail!(self.machine_st, self.machine_st.p = self.machine_st.cp);
                     }
                     &Instruction::CallStreamProperty => {
                         try_or_throw!(self.machine_st, self.stream_property(), continue);
@@ -5058,11 +5058,11 @@ impl Machine {
                     }
                     &Instruction::CallInlinedInstructions => {
                         self.inlined_instructions();
-                        self.machine_st.p += 1;
+                        step_or_fail!(self.machine_st, self.machine_st.p += 1);
                     }
                     &Instruction::ExecuteInlinedInstructions => {
                         self.inlined_instructions();
-                        self.machine_st.p = self.machine_st.cp;
+                        step_or_fail!(self.machine_st, self.machine_st.p = self.machine_st.cp);
                     }
                     &Instruction::CallWriteTerm => {
                         try_or_throw!(self.machine_st, self.write_term(), continue);
